@@ -184,6 +184,6 @@ def _bare_use(v):
                 return True
             if len(x) == 3 and x[0] == 'app' and x[1] == 'cast' and x[2] and x[2][0] == S('mask'):
                 return False
-            return any(walk(i) for i in x[1:])
+            return any(walk(i) for i in x)
         return False
     return walk(v)
